@@ -1316,6 +1316,9 @@ fn fam_random<T: Payload>(c: &Case, cx: &mut Ctx) -> Outcome {
                 k = Op::ARecv;
             }
             let before = sc.waiters();
+            let role = sc.role_of(live.len().max(0)) * 0 + (sc.n_workers() as u32 + 1);
+            let reg_passes = |role: u32| fp::pass_count(role, WAIT_ENTER) + fp::pass_count(role, WAIT_TIMEOUT_ENTER) + fp::pass_count(role, REGISTER_WAKER);
+            let passes0 = reg_passes(role);
             let w = sc.spawn(if recv_side { Side::R } else { Side::S }, rng.chance(1, 2), vec![k]);
             // either it returns at once, or it shows up in the wait list
             let t0 = std::time::Instant::now();
@@ -1324,7 +1327,9 @@ fn fam_random<T: Payload>(c: &Case, cx: &mut Ctx) -> Outcome {
                 if sc.worker_finished(w) {
                     break;
                 }
-                if sc.waiters() == before + 1 {
+                // registered: the wait list grew, or (another waiter may have left at the same moment) the worker
+                // itself passed one of the points that lie right at / after its registration
+                if sc.waiters() == before + 1 || (reg_passes(role) != passes0 && sc.waiters() >= 1) {
                     sc.pin_reg(w, 0);
                     live.push(w);
                     break;
